@@ -109,3 +109,57 @@ package clusters
 //@   ensures [ready_endpoint] result2 == nil ==> exists ep string :: {smhas(&result.Endpoints.data, box(ep))} smhas(&result.Endpoints.data, box(ep)) && !pickedEP.status.Disabled && pickedEP.status.Healthy && result1 == pickedEP.clientset
 //@   ensures [unknown_cluster] !old(smhas(MC, box(toLower(name)))) ==> result2 != nil && result1 == nil && result == nil
 //@   ensures [no_ready] result2 != nil ==> result1 == nil
+
+//@ const FGKEY = "proxy.kubegateway.io/feature-gates"
+//@ const DEFAULTFG = features.DefaultMutableFeatureGate
+//@ const fgWF = (c.featuregate in fgalive) && (DEFAULTFG in fgalive) && fgval[DEFAULTFG] == gdefault() && c.featuregate != DEFAULTFG
+//@ const nameMatches = old(c.Cluster) == toLower(old(cluster.Name))
+
+//@ func (*ClusterInfo).syncFeatureGate props C11
+//@   requires [wf] fgWF
+//@   modifies c.featuregate, fgval, fgalive
+//@   ensures [latest_only] result == nil ==> fgval[c.featuregate] == gatesOfAnn(annotations[FGKEY])
+//@   ensures [error_keeps] result != nil ==> c.featuregate == old(c.featuregate) && fgval[c.featuregate] == old(fgval[c.featuregate])
+//@   ensures [wf] fgWF
+
+//@ func (*ClusterInfo).syncSecureServingConfigLocked props C11
+//@   modifies c.currentSecureServingTLSConfig
+//@   loop 0: invariant [t] true
+
+//@ func (*ClusterInfo).syncEndpoints props C11
+//@   trusted "frame only (until the endpoint contracts land): touches the endpoint map, the load-balancer cursors and endpoint objects"
+//@   modifies smap(&c.Endpoints.data), c.loadbalancer, smap(&c.loadbalancer), fields("EndpointInfo", "status"), cancelled
+
+//@ func (*ClusterInfo).Sync props C11
+//@   requires [obj] cluster != nil
+//@   requires [latest] cluster == latestobj
+//@   requires [wf] fgWF
+//@   modifies *
+//@   ensures [wf] fgWF
+//@   ensures [gates_latest] result == nil && nameMatches ==> fgval[c.featuregate] == gatesOfAnn(old(cluster.Annotations[FGKEY]))
+//@   ensures [policies_latest] result == nil && nameMatches ==> typeis(c.currentDispatchPolicies.v, "[]proxyv1alpha1.DispatchPolicy") && unbox(c.currentDispatchPolicies.v, "[]proxyv1alpha1.DispatchPolicy") == old(cluster.Spec.DispatchPolicies)
+//@   ensures [logging_latest] result == nil && nameMatches ==> typeis(c.currentLoggingConfig.v, "proxyv1alpha1.LoggingConfig") && unbox(c.currentLoggingConfig.v, "proxyv1alpha1.LoggingConfig") == old(cluster.Spec.Logging)
+//@   ensures [flowcontrol_latest] result == nil && nameMatches ==> fcsynced[old(c.flowcontrol)] == old(cluster.Spec.FlowControl)
+//@   ensures [limiter_type] result == nil && nameMatches ==> fctype[old(c.flowcontrol)] == ((old(c.globalRateLimiter) == "remote" && genabled(fgval[c.featuregate], "GlobalRateLimiter")) ? "remote" : "local")
+//@   ensures [identity_kept] c.flowcontrol == old(c.flowcontrol) && c.Cluster == old(c.Cluster) && c.globalRateLimiter == old(c.globalRateLimiter)
+//@   ensures [mismatch_noop] !nameMatches ==> result == nil && fcsyncs == old(fcsyncs) && fgval == old(fgval) && c.featuregate == old(c.featuregate)
+
+//@ const defaultWF = (DEFAULTFG in fgalive) && fgval[DEFAULTFG] == gdefault()
+
+//@ func NewEmptyClusterInfo props C11
+//@   requires [default] defaultWF
+//@   modifies fgval, fgalive
+//@   ensures [wf] result != nil && (result.featuregate in fgalive) && result.featuregate != DEFAULTFG && fgval[result.featuregate] == gdefault() && defaultWF
+//@   ensures [name] result.Cluster == toLower(clusterName)
+
+//@ func CreateClusterInfo props C11
+//@   requires [latest] cluster != nil && cluster == latestobj
+//@   requires [default] defaultWF
+//@   modifies *
+//@   ensures [wf] defaultWF && (result1 == nil ==> result != nil && (result.featuregate in fgalive) && result.featuregate != DEFAULTFG)
+//@   ensures [gates_latest] result1 == nil ==> fgval[result.featuregate] == gatesOfAnn(old(cluster.Annotations[FGKEY]))
+//@   ensures [flowcontrol_latest] result1 == nil ==> fcsynced[result.flowcontrol] == old(cluster.Spec.FlowControl)
+
+//@ func buildClusterRESTConfig props C11
+//@   trusted "builds a fresh rest.Config from the object's client settings; reads only (client connection settings are outside C11)"
+//@   modifies nothing
